@@ -297,8 +297,14 @@ def replay(name, mod, slot, logdir, cap=1800, want=None, panics_ok=False):
     shutil.copytree(HARNESS, scratch, ignore=shutil.ignore_patterns("target", "kani-list.json"))
     verdicts = {}
     test_src_all = []
+    seen_fn = set()
     for k, t in enumerate(tests[:40]):
         fname = re.search(r"fn (kani_concrete_playback_\w+)", t).group(1)
+        # Kani names a test after the hash of its concrete values: two failed checks with the
+        # same assignment give the same function twice, which would not compile
+        if fname in seen_fn:
+            continue
+        seen_fn.add(fname)
         t2 = re.sub(r"concrete_playback_run\(concrete_vals, (\w+)\)", r"concrete_playback_run(concrete_vals, crate::%s::\1)" % mod, t)
         test_src_all.append(t2)
     with open(os.path.join(scratch, "src", "playback_tests.rs"), "w") as f:
